@@ -45,6 +45,8 @@ class RibCtx(BaseCtx):
 
     def __init__(self, cfg, tier):
         BaseCtx.__init__(self, cfg, tier)
+        if cfg.get("handler") == "default":
+            self.stats["gen:default_handler_runs"] += 1
         self.reset_model()
         self.stage = "connect"
         self.sessions = 0
@@ -306,8 +308,25 @@ class RibCtx(BaseCtx):
 
     @property
     def as4(self):
-        p = self.world.factory.fsm.protocol
-        return bool(getattr(p, "fourbytesas", False))
+        """AS numbers are 4 octets wide exactly when both OPENs of this session carry capability 65 (taken from the
+        wire, not from the agent's own flag)."""
+        w = self.world
+        k = self.cur_k()
+        if k is None:
+            p = w.factory.fsm.protocol
+            return bool(getattr(p, "fourbytesas", False))
+        c = w.live_conns()[k]
+        cache = self.__dict__.setdefault("_as4", {})
+        if c.cid not in cache:
+            try:
+                mine = [f for f in rp.deframe(bytes(c.written))[0] if f.type == rp.OPEN and not f.error]
+                peer = rp.decode_open(rp.deframe(bytes.fromhex(self.cfg["peer_open"]))[0][0].body)
+                cache[c.cid] = bool(mine) and any(code == 65 for code, _ in rp.decode_open(mine[0].body).caps) \
+                    and any(code == 65 for code, _ in peer.caps)
+            except (ValueError, IndexError):
+                p = w.factory.fsm.protocol
+                return bool(getattr(p, "fourbytesas", False))
+        return cache[c.cid]
 
     # ------------------------------------------------------------------ oracle
     def versions(self):
@@ -645,6 +664,8 @@ class RibProfile(BaseProfile):
             cfg["local_as"] = cfg["remote_as"] = 65001
         if rng.chance(0.3):
             cfg["four_bytes_as"] = False
+        if cfg["local_as"] != cfg["remote_as"] and rng.chance(0.12):
+            cfg["local_as"] = rng.pick([70000, 4200000000])     # (capability 65 is then advertised whatever four_bytes_as says)
         cfg["max_ops"] = rng.pick([20, 40, 80])
         cfg["late_close"] = rng.pick([2, 4, 8]) if rng.chance(0.25) else None
         if rng.chance(0.2):
